@@ -22,6 +22,7 @@ def _lib():
         "rzz": L.RZZGate, "crx": L.CRXGate, "cry": L.CRYGate, "crz": L.CRZGate, "ecr": L.ECRGate,
         "cp": L.CPhaseGate, "swap": L.SwapGate, "iswap": L.iSwapGate, "dcx": L.DCXGate, "rzx": L.RZXGate,
         "xx_plus_yy": L.XXPlusYYGate, "xx_minus_yy": L.XXMinusYYGate, "ccx": L.CCXGate, "cswap": L.CSwapGate, "ccz": L.CCZGate, "u": L.UGate,
+        "rccx": L.RCCXGate, "c3x": L.C3XGate, "rcccx": L.RC3XGate,
         "reset": Reset, "measure": Measure, "qpd_measure": QPDMeasure, "move": Move, "cut_wire": CutWire,
         "global_phase": L.GlobalPhaseGate,
     }
